@@ -1,5 +1,5 @@
 """C13 - doc strings are opaque: verbatim content, closed only by their own delimiter."""
-from . import parser_rules as pr, matcher_rules as mr, builder_rules as br, line_rules as lr
+from . import parser_rules as pr, matcher_rules as mr, builder_rules as br, line_rules as lr, misc_rules as ms
 
 META = {
     "level": "other",
@@ -21,4 +21,5 @@ def run(rep):
     lr.rule_line_basics(rep, "C13.line")
     br.rule_docstring_ast(rep)
     mr.rule_reset(rep, "C13.reset", classes=(mr.MQ,))
+    ms.rule_parse_resets(rep, "C13.parsereset")
     mr.rule_sink(rep, "C13.sink", "C13.crlf", want=("crlf",))
